@@ -49,57 +49,73 @@ CLAIMS["C06"] = {
 }
 
 CLAIMS["C03"] = {
-    "technique": "exhaustive abstract evaluation of the parsed box predicate "
-                 "over order types; def-use / set rules for the settings "
-                 "diff, conjunction operands, accumulator resets, polygon "
-                 "hash coverage, reset completeness",
-    "text": "The incremental filter update is split into structural "
-            "necessary conditions that hold for every history at once: the "
-            "settings diff sees removed keys and compares against a copy; "
-            "the parsed range predicate equals 'lo<=v<=hi after swap, "
-            "inactive iff min==max, NaN outside' on all weak orderings; the "
-            "conjunction has exactly the four operands; every accumulator "
-            "is rebuilt from all-True; the polygon cache key covers every "
-            "attribute the evaluation reads; reset clears every memo.",
-    "note": "Does not decide equality with a from-scratch evaluation on "
-            "arbitrary data, nor numpy semantics; reproducibility of the "
-            "event limit rests on C16's seeding rule.",
+    "technique": "finite-model evaluation of the parsed Filter class (history "
+                 "evaluation on a six-event model dataset, nothing of dclab "
+                 "executed); def-use / set rules for polygon hash coverage, "
+                 "inversion, reset completeness, filter universe",
+    "text": "Filter is loaded from its syntax tree into the analyser's "
+            "interpreter and driven through curated (quick) or all pair / "
+            "triple (thorough) histories of ~40 operations (ranges incl. "
+            "swapped, equal, removed, NaN/inf data; manual exclusions; "
+            "polygon add/remove/change/invert; invalid-event removal; event "
+            "limit; features appearing); after every step each per-class "
+            "array and the combined array are compared with the "
+            "specification evaluated from scratch on the current settings. "
+            "Structural rules cover what the model does not contain: the "
+            "polygon cache key covers every attribute the evaluation reads, "
+            "no return by-passes the inversion, reset clears every memo, the "
+            "filter universe is features_scalar.",
+    "note": "Decides the histories of the family on the model dataset, not "
+            "arbitrary data; numpy semantics are modelled (trusted base); "
+            "reproducibility of the event limit rests on C16's seeding rule.",
 }
 
 CLAIMS["C19"] = {
-    "technique": "affine normal forms (exact rational functions) for chunk / "
-                 "range arithmetic in both sibling implementations; ordering "
-                 "rule binding-before-eviction; def-use clamp rule",
-    "text": "Network code cannot run offline, so its shape is the only thing "
-            "checkable: chunk bounds, the exclusive→inclusive Range header "
-            "in HTTPFile and S3File, chunk index range, in-chunk offsets and "
-            "consumed amounts are compared as affine forms; the returned "
-            "chunk must be bound before (or skipped by) the eviction; the "
-            "read range must be clamped to the resource and a negative size "
-            "must mean 'to the end'; seek/tell/read position protocol; "
-            "hand-over of the file object by the non-local formats.",
-    "note": "Byte equality for arbitrary access sequences and equality of a "
-            "dataset opened over HTTP with the local one are not decided "
-            "(need a server and execution). The chunk loop is decided "
-            "piecewise, not as a whole.",
+    "technique": "finite-model evaluation of the parsed HTTPFile / S3File "
+                 "classes on a family of small resources behind a model "
+                 "range server (nothing of dclab executed, no network); "
+                 "structural rules for hand-over, per-instance state, "
+                 "resource identity, lazy listings published complete",
+    "text": "Network code cannot run offline. HTTPFile is loaded from its "
+            "syntax tree and evaluated for every byte range and every "
+            "seek/read/tell combination on resources of 1-8 bytes (thorough: "
+            "90 models) with chunk sizes 3-4 and 1-2 kept chunks, behind a "
+            "model session that is strict about Range, implements If-Range / "
+            "If-Match and labels the resource with a strong, weak or no "
+            "ETag: returned bytes, position, cache bound, chunk-0 pin, "
+            "content of each cached chunk and the request log are compared "
+            "with the specification; S3File.download_range likewise. "
+            "Structural: the file object is handed to h5py by the non-local "
+            "formats, state is per instance, the resource identity is bound "
+            "in __init__ only, and the memoised listings of the inherited "
+            "HDF5 reader are published only when complete.",
+    "note": "Decides the family, not all sizes; equality of a dataset opened "
+            "over HTTP with the local one is decided only as far as the byte "
+            "layer and the listing memos go (h5py is not modelled).",
 }
 
 CLAIMS["C17"] = {
-    "technique": "def-use rules on the cache key construction, paired-update "
-                 "rules for eviction, escape analysis of memoised results "
-                 "into the dataset interface, who-calls scan",
-    "text": "The memoisation mechanisms are checked for the conditions "
-            "under which a cached value can differ from a fresh one for some "
-            "call history: a key ingredient missing (argument class, keyword "
-            "name, function identity, dtype/shape, delimiter; mtime/size/"
-            "resolved path for the file cache), the two eviction stores "
-            "drifting apart, a shared cached object escaping uncopied "
-            "through the dataset interface, a memoised function depending "
-            "on module state.",
-    "note": "Value equality with an uncached computation is not decided; "
-            "determinism of scipy/numpy callees assumed; md5 collision "
-            "freedom assumed; direct user calls of memoised functions are "
-            "outside the escape rule.",
+    "technique": "finite-model evaluation of the parsed Cache class (model "
+                 "functions, model arrays, concatenating model of md5); "
+                 "escape analysis of memoised results into the dataset "
+                 "interface; paired-update rules; package-wide identity-memo "
+                 "scan",
+    "text": "Cache is loaded from its syntax tree and evaluated: 40 argument "
+            "lists constructed to collide (types, delimiters, keyword names, "
+            "None positions, option subsets of a named signature, dtype, "
+            "byte order, shape, one byte in a large array) must get distinct "
+            "entries; keyword order, equal copies and layout must not "
+            "matter; a hit returns the stored object, a miss computes with "
+            "the given arguments, an in-place edit of an argument computes "
+            "again; bound, eviction order and clear for MAX_SIZE 1 and 3. "
+            "Structural: the file cache key (resolved path, mtime_ns, size), "
+            "LazyContourList deques filled together, shared cached objects "
+            "reach the dataset interface only copied or read-only, memoised "
+            "functions read no module state, no function in the package "
+            "keys a memo on the identity of an argument.",
+    "note": "Value equality with an uncached computation is decided for the "
+            "model functions only; determinism of scipy/numpy callees and "
+            "md5 collision freedom assumed.",
 }
 
 CLAIMS["C15"] = {
